@@ -218,11 +218,38 @@ def run(ctx):
             o.update(extra)
         return o
 
+    # PIP_Problem::solve() reads freed memory on objects that were never loaded (valgrind: invalid read in column_lower /
+    # is_better_pivot, PIP_Tree.cc; originals crash in orig_op too), so a PIP twin can die or diverge by accident of the
+    # heap layout.  A PIP failure after the load is therefore judged only if it shows again when the history is re-run
+    # alone (other heap layout); the null-parent crash of KF-C15-10 does.
+    rerun_budget = [12]
+    rerun_cache = {}
+
+    def pip_reproducible(case):
+        if case in rerun_cache:
+            return rerun_cache[case]
+        if rerun_budget[0] <= 0:
+            return True
+        rerun_budget[0] -= 1
+        again = False
+        for _ in range(2):
+            rc2, out2, _e = ctx.run([h] + base_args + ["--first", str(case), "--last", str(case + 1)], timeout=300)
+            _c, f2, _s, _st, cr2 = parse_journal((out2 or "").splitlines())
+            if any(x["what"].startswith("suffix_") for x in f2) or any(x["phase"] not in ORIGINAL_PHASES for x in cr2):
+                again = True
+                break
+        rerun_cache[case] = again
+        return again
+
+    flaky_pip = collections.Counter()
     # ---- the property itself, judged on the real output
     fail_hist, kf_hist, seen_viol = collections.Counter(), collections.Counter(), set()
     for f in fails:
         recs = classify(f, sites)
         fail_hist["%s|%s|%s" % (f["class"], f["recv"], f["what"])] += 1
+        if f["class"] == "PIP_Problem" and f["what"].startswith("suffix_") and not pip_reproducible(f["case"]):
+            flaky_pip["%s|not reproducible alone" % f["what"]] += 1
+            continue
         unknown = [(site, tags, why) for site, tags, why in recs if ctx.match_known({"site": site, "tags": tags}) is None]
         if not unknown:
             for site, tags, why in recs:
@@ -241,6 +268,9 @@ def run(ctx):
         if c["phase"] in ORIGINAL_PHASES:
             # the history itself died (on the object that was never loaded): a defect of the operation, not of dump/load
             crash_orig["%s|%s|%s" % (c["class"], c["phase"], c["signal"])] += 1
+            continue
+        if c["class"] == "PIP_Problem" and not pip_reproducible(c["case"]):
+            flaky_pip["crash %s in %s|not reproducible alone" % (c["signal"], c["phase"])] += 1
             continue
         rec = {"site": "crash:" + c["class"], "tags": [c["phase"]]}
         if c["class"] == "PIP_Problem" and c["phase"].startswith("twin_") and c["note"] == "loaded_pip_tree_has_decision_node" and c["signal"] == "SIGSEGV":
@@ -318,6 +348,7 @@ def run(ctx):
         "failures_histogram": dict(fail_hist.most_common(60)),
         "known_finding_hits": dict(kf_hist),
         "crashes_in_the_original_history_not_judged": dict(crash_orig),
+        "pip_failures_after_load_not_reproducible_alone_not_judged": dict(flaky_pip),
         "real_texts_checked_by_lean_model": n_ok, "real_texts_mismatch": len(mism),
         "real_texts_by_kind": dict(harvested),
         "tables": info,
